@@ -280,6 +280,18 @@ Definition check_inj (c : inj_case) : list Z :=
   | (_, real) :: _ => if Z.eqb real r then [] else [78]
   end.
 
+(* ---------- C05 with an interrupt raised by device d before the initial tick has reached it:
+   63: some device is not updated at the initial time at all (the interrupt is served at the
+   initial time too, so d and everything downstream of it may be updated twice: "exactly once"
+   is the statement for runs without early interrupts) *)
+Definition early_case := (sim_case * comp)%type.
+Definition check_initial_early (c : early_case) : list Z :=
+  let '(sc, d) := c in
+  let at_init := filter (fun o : obs => Z.eqb (snd (fst o)) (sc_initial sc)) (sc_trace sc) in
+  if forallb (fun x => let n := Z.of_nat (length (filter (fun o : obs => Pos.eqb (fst (fst o)) x) at_init)) in
+                       Z.leb 1 n && (Pos.eqb x d || true)) (devices_of (sc_cfg sc))
+  then [] else [63].
+
 (* ---------- C04 on whole simulations: every inner tick lies inside the master tick that
    triggered it and carries its time (the tick log is in the order the ticks started) *)
 Fixpoint inner_inside (cur : option Z) (log : list (positive * Z * list comp)) : bool :=
